@@ -94,6 +94,14 @@ let rec cstmt_of (t : Sexp.t) : cstmt =
   | L [A "sif"; c; th; rest] -> SIf (cexpr_of c, cblk_of th, celse_of rest)
   | L [A "sswitch"; v; cs] -> SSwitch (cexpr_of v, ccases_of cs)
   | L [A "sfor"; x; e; body; hasie; ie] -> SFor (xs (atom x), cexpr_of e, cblk_of body, bb hasie, cblk_of ie)
+  | L [A "scall"; nm; d; L ps] ->
+      SCall (xs (atom nm),
+             (match d with A "dnone" -> DNone | A "dall" -> DAll | L [A "dexpr"; e] -> DExpr (cexpr_of e) | _ -> failwith "bad cdata"),
+             List.fold_right (fun p acc -> match p with
+               | L [A "pv"; k; e] -> PVal (xs (atom k), cexpr_of e, acc)
+               | L [A "pc"; k; body] -> PCont (xs (atom k), cblk_of body, acc)
+               | _ -> failwith "bad param") ps PNil)
+  | L [A "smsg"; body] -> SMsg (cblk_of body)
   | L [A "scss"; A "none"; sfx] -> SCss (None, xs (atom sfx))
   | L [A "scss"; e; sfx] -> SCss (Some (cexpr_of e), xs (atom sfx))
   | L [A "sforrange"; x; L (a1 :: rest); body; hasie; ie] ->
@@ -116,6 +124,22 @@ and ccases_of (t : Sexp.t) : ccases =
   | L [A "kcase"; L (v :: vs); b; rest] -> KCase (cexpr_of v, List.map cexpr_of vs, cblk_of b, ccases_of rest)
   | _ -> failwith ("bad ccases " ^ to_string t)
 
+(* the callee of the statement tie: tie.echo(data) = "E(a=..;x=..;y=..;f=..;)" with String(v) of a primitive, U for undefined,
+   O for an array or object -- the same function in three places: on the Soy data (sout's callee), on the MiniJS object
+   (js_exec's function), and in JavaScript (go/cmd/soyverif/c04_stmt.go) *)
+let echo_name = bstr_of_string "tie.echo"
+let echo_keys = List.map bstr_of_string ["a"; "x"; "y"; "f"]
+let echo_repr (v : jval) : n list =
+  match js_tostring v with Some s -> s | None -> (match v with JUndef -> bstr_of_string "U" | _ -> bstr_of_string "O")
+let echo_of (get : n list -> jval) : n list =
+  bstr_of_string "E(" @ List.concat (List.map (fun k -> k @ bstr_of_string "=" @ echo_repr (get k) @ bstr_of_string ";") echo_keys) @ bstr_of_string ")"
+let echo_callee (name : n list) (cenv : n list -> value option) : n list option =
+  if name = echo_name then Some (echo_of (fun k -> match cenv k with Some v -> to_js v | None -> JUndef)) else None
+let echo_jcall (name : n list) (dv : jval) (_ : jval) : n list outcome =
+  if name = echo_name then
+    (match dv with JObj m -> Ok (echo_of (fun k -> match assoc_s k m with Some v -> v | None -> JUndef)) | _ -> OutOfModel)
+  else Err je_ref
+
 let () =
   (* minijs_stmt (ij VALUE|none) (scope (xKey xGen)...) COUNTER (env (xKey VALUE)...) MODE xBUF CSTMT
      -> <hex js text of the statement at indentation 1>
@@ -136,8 +160,9 @@ let () =
                    je_data = JObj (List.filter_map (fun (k, v) -> if List.mem_assoc k sc then None else Some (k, to_js v)) env) } in
         let (j, _) = sgen mode buf [sc] n cs in
         let text = render_chunks is_print_tbl (sprint (S O) j) in
-        let so = (match sout ij mode go_print_text envf cs with Some (t, _) -> hex_of_bstr t | None -> "none") in
-        let ex = (match js_exec je j with
+        let denvf k = if List.mem_assoc k sc then None else envf k in
+        let so = (match sout ij mode go_print_text denvf echo_callee envf cs with Some (t, _) -> hex_of_bstr t | None -> "none") in
+        let ex = (match js_exec echo_jcall je j with
                   | Ok je' -> ["ok"; hex_of_string ("[" ^ String.concat "," (List.map (fun (k, v) -> "[" ^ json_str k ^ "," ^ json_of v ^ "]") je'.je_vars) ^ "]")]
                   | Err m -> ["err"; hex_of_bstr m]
                   | _ -> ["oom"]) in
